@@ -94,6 +94,18 @@ func (m *corsCacheStorageMiddleware) DeleteBucketCORSConfiguration(ctx context.C
 	return err
 }
 
+// DeleteBucket drops the cached CORS configuration of the bucket: the
+// configuration is deleted with the bucket, and a bucket re-created under the
+// same name must not be served the old rules.
+func (m *corsCacheStorageMiddleware) DeleteBucket(ctx context.Context, bucketName storage.BucketName) error {
+	ctx, span := m.tracer.Start(ctx, "CORSCacheStorageMiddleware.DeleteBucket")
+	defer span.End()
+
+	err := m.Next.DeleteBucket(ctx, bucketName)
+	m.invalidate(bucketName.String())
+	return err
+}
+
 func (m *corsCacheStorageMiddleware) lookup(key string) (cacheEntry, bool) {
 	m.mu.RLock()
 	entry, ok := m.entries[key]
